@@ -383,6 +383,13 @@ func (c *Conn) Write(b []byte) (int, error) {
 	return len(b), nil
 }
 
+// Unread tells how many fed bytes the server has not read yet.
+func (c *Conn) Unread() int {
+	c.w.mu.Lock()
+	defer c.w.mu.Unlock()
+	return len(c.in)
+}
+
 // FailWrites makes every current and later Write fail with err (e.g. a write timeout).
 func (c *Conn) FailWrites(err error) {
 	c.w.mu.Lock()
